@@ -5,19 +5,7 @@
    an optionally '!'/'n'-negated range term #, -#, #-, #-#, l, l-#, l-#-, -l, -l-#, #-l, #-l-# over
    non-empty digit strings); render e is its text, map render_term e its comma separated tokens.
    n is the page count.  expr_fails n e: a number that has to be read does not fit an int.
-
-   The property has three parts.  Parts 1 and 2 (meaning, range) are proved for every expression of
-   the syntax.  Part 3 ("expressions outside the syntax are rejected") is FALSE for the code: in
-   "^" + e + "(," + e + ")*$" the alternation inside e binds weaker than ^, the group and $, so
-   MatchString accepts every string that starts with "even", contains "odd", or merely ENDS in a
-   valid term; some of those strings are then evaluated without error ("1-2-3" selects 1,2), one
-   family even outside 1..n ("-l--5" selects 1..n+5).  Hence
-     C31_rejects_outside_syntax_refuted, C31_selection_in_range_refuted, C31_collection_in_range_refuted
-   are proved, and the range theorems carry the suffix _partial: they hold for the expressions of the
-   syntax, not for everything ParsePageSelection accepts.  The full statements would be
-     forall s toks, ParsePageSelection s = Some toks -> s <> [] -> exists e, render e = s       (false)
-     forall s toks n m, ParsePageSelection s = Some toks -> PagesForPageSelection n toks b = Ok (Some m)
-                        -> forall p b, In (p, b) m -> 1 <= p <= n                               (false) *)
+   The empty string is accepted by ParsePageSelection as "no selection" (no tokens). *)
 From Coq Require Import ZArith NArith Bool List.
 From PV Require Import Lib.GoInt C31.Model C31.Spec C31.ProofsMain C31.ProofsSyntax.
 Import ListNotations.
@@ -29,8 +17,15 @@ Theorem C31_parse_accepts_syntax : forall e, e <> [] -> forallb wf e = true ->
 Proof. exact parse_complete. Qed.
 Print Assumptions C31_parse_accepts_syntax.
 
-(* The recogniser the harness' oracle is tied to accepts exactly the syntax (it rejects everything
-   outside it). *)
+(* Expressions outside the syntax are rejected: whatever ParsePageSelection accepts is the empty
+   string (no tokens) or the text of an expression of the syntax, split into exactly its terms. *)
+Theorem C31_rejects_outside_syntax : forall s toks, ParsePageSelection s = Some toks ->
+  (s = [] /\ toks = []) \/
+  (exists e, e <> [] /\ forallb wf e = true /\ s = render e /\ toks = map render_term e).
+Proof. exact rejects_outside_syntax. Qed.
+Print Assumptions C31_rejects_outside_syntax.
+
+(* The recogniser the harness' oracle is tied to accepts exactly the syntax. *)
 Theorem C31_syntax_recogniser_exact : forall s,
   in_syntax s = true <-> exists e, e <> [] /\ forallb wf e = true /\ render e = s.
 Proof. exact in_syntax_exact. Qed.
@@ -48,12 +43,13 @@ Theorem C31_selection_is_fold : forall n e ens, 0 <= n -> e <> [] -> forallb wf 
 Proof. exact selection_is_fold. Qed.
 Print Assumptions C31_selection_is_fold.
 
-(* ... and every key of the map (selected or deselected) is a page of the document. *)
-Theorem C31_selection_in_range_partial : forall n e ens m, 0 <= n -> e <> [] -> forallb wf e = true ->
-  PagesForPageSelection n (map render_term e) ens = Ok (Some m) ->
+(* For every string ParsePageSelection accepts and every page count, every key of the returned map
+   (selected or deselected) is a page of the document. *)
+Theorem C31_selection_in_range : forall s toks n ens m, 0 <= n ->
+  ParsePageSelection s = Some toks -> PagesForPageSelection n toks ens = Ok (Some m) ->
   forall p b, In (p, b) m -> 1 <= p <= n.
-Proof. exact selection_in_range. Qed.
-Print Assumptions C31_selection_in_range_partial.
+Proof. exact selection_in_range_full. Qed.
+Print Assumptions C31_selection_in_range.
 
 (* Collections: the list is the concatenation of the term ranges in term order, with repetitions;
    a negated term deletes all occurrences of its pages collected so far; an empty result and a
@@ -65,37 +61,13 @@ Theorem C31_collection_is_fold : forall n e, 0 <= n -> forallb wf e = true ->
 Proof. exact collection_is_fold. Qed.
 Print Assumptions C31_collection_is_fold.
 
-Theorem C31_collection_in_range_partial : forall n e l, 0 <= n -> forallb wf e = true ->
-  PagesForPageCollection n (map render_term e) = COk l -> Forall (in_pages n) l.
-Proof. exact collection_in_range. Qed.
-Print Assumptions C31_collection_in_range_partial.
+Theorem C31_collection_in_range : forall s toks n l, 0 <= n ->
+  ParsePageSelection s = Some toks -> PagesForPageCollection n toks = COk l -> Forall (in_pages n) l.
+Proof. exact collection_in_range_full. Qed.
+Print Assumptions C31_collection_in_range.
 
-(* "1-2-3" is outside the syntax, ParsePageSelection accepts it, and it selects / collects 1,2. *)
-Theorem C31_rejects_outside_syntax_refuted :
-  exists s toks m,
-    (~ exists e, e <> [] /\ forallb wf e = true /\ render e = s)
-    /\ ParsePageSelection s = Some toks
-    /\ PagesForPageSelection 5 toks false = Ok (Some m) /\ mfind 2 m = Some true
-    /\ PagesForPageCollection 5 toks = COk [1; 2].
-Proof. exact rejects_outside_syntax_refuted. Qed.
-Print Assumptions C31_rejects_outside_syntax_refuted.
-
-(* "-l--5" is accepted and, on 2 pages, selects / collects pages 1..7. *)
-Theorem C31_selection_in_range_refuted :
-  exists s toks n m p b,
-    ParsePageSelection s = Some toks /\ PagesForPageSelection n toks false = Ok (Some m)
-    /\ In (p, b) m /\ ~ (1 <= p <= n).
-Proof. exact selection_in_range_refuted. Qed.
-Print Assumptions C31_selection_in_range_refuted.
-
-Theorem C31_collection_in_range_refuted :
-  exists s toks n l p,
-    ParsePageSelection s = Some toks /\ PagesForPageCollection n toks = COk l
-    /\ In p l /\ ~ (1 <= p <= n).
-Proof. exact collection_in_range_refuted. Qed.
-Print Assumptions C31_collection_in_range_refuted.
-
-(* non-vacuity: "1-3,!2,even,l-1-" on 6 pages; a failing expression; an empty collection *)
+(* non-vacuity: "1-3,!2,even,l-1-" on 6 pages; a failing expression; an empty collection; and the
+   strings the regular expression accepted before its alternatives were grouped are rejected *)
 Definition ex_e : list term :=
   [TR NoNeg (RRange [49%N] [51%N]); TR Bang (RNum [50%N]); TEven; TR NoNeg (RLmTo [49%N])].
 Example C31_nonvacuous :
@@ -105,5 +77,8 @@ Example C31_nonvacuous :
      = Ok (Some [(1, true); (2, false); (3, true); (4, true); (5, true); (6, true)])
   /\ PagesForPageCollection 6 (map render_term ex_e) = COk [1; 3; 2; 4; 6; 5; 6]
   /\ expr_fails 6 [TR NoNeg (RNum (repeat 57%N 20))] = true
-  /\ PagesForPageCollection 6 (map render_term [TR En RL]) = CErrNoPage.
+  /\ PagesForPageCollection 6 (map render_term [TR En RL]) = CErrNoPage
+  /\ ParsePageSelection w_123 = None /\ ParsePageSelection w_plus5 = None
+  /\ ParsePageSelection w_lmm5 = None /\ ParsePageSelection w_foo1 = None
+  /\ ParsePageSelection w_xoddx = None.
 Proof. vm_compute. repeat split; congruence. Qed.
